@@ -10,6 +10,7 @@ import Driver.AddrSuite
 import Driver.ProxySuite
 import Driver.CertSuite
 import Driver.CliSuite
+import Driver.JsonTextSuite
 
 open VV
 
@@ -38,6 +39,7 @@ def lineFn : String → Option (String → String)
   | "proxy" => some proxyLine
   | "cert" => some certLine
   | "cli" => some cliLine
+  | "jsontext" => some jsontextLine
   | _ => none
 
 def predFn : String → Option (String → String → String → String)
@@ -53,6 +55,7 @@ def predFn : String → Option (String → String → String → String)
   | "proxy" => some proxyPred
   | "cert" => some certPred
   | "cli" => some cliPred
+  | "jsontext" => some jsontextPred
   | _ => none
 
 def main (args : List String) : IO UInt32 := do
